@@ -174,6 +174,24 @@ func (g *Gates) ReleaseAll() {
 	g.mu.Unlock()
 }
 
+// Reopen forgets all gate settings and releases so that the Gates can be reused for
+// another phase of the same case.
+func (g *Gates) Reopen() {
+	g.mu.Lock()
+	g.closed = false
+	g.mode = map[string]int{}
+	g.yields = map[string]int{}
+	g.rel = map[string]chan struct{}{}
+	g.mu.Unlock()
+	for {
+		select {
+		case <-g.arrived:
+		default:
+			return
+		}
+	}
+}
+
 // WaitArrival waits until key (or any key if key=="") arrives at a Hold gate, or done is
 // closed, or the bound expires. It returns the key and what happened.
 func (g *Gates) WaitArrival(done <-chan struct{}, bound time.Duration) (string, string) {
